@@ -114,6 +114,7 @@ structure S where
   readerCancelled : Bool := false              -- the parked connect attempt was cancelled: ReadSlices returns ErrClosed
   inNewSession : Bool := false
   noClient : Bool := true             -- no usable *Client (before init, after a fatal AdoptSession)
+  online : Bool := false              -- the Online signal is released (then Offline is blocked, and the other way round)
   evs : List Ev := []                 -- newest first
 deriving Repr
 
@@ -315,7 +316,7 @@ def S.toOffline (s : S) : S :=
   let s := match s.held with
     | some (wtag, k) => ((({ s with held := none }).openGateClosed).runWriter wtag k).afterHolder
     | none => s
-  let s := { s with link := .pending, readConn := false, big := none, peek := [] }
+  let s := { s with link := .pending, readConn := false, big := none, peek := [], online := false }
   let s := s.releasePing (mkErr ["break"])
   s.breakAll
 
@@ -424,7 +425,7 @@ def S.connectFinish (s : S) (clean : Bool) (prev : Option Conn) : S × ConnectRe
         | some e =>
           if e == mkErr ["gate"] then (s, .unsupported "write gate inside resend") else
           ((({ s.closeConn with link := .down }).failWaiters (mkErr ["down"])), .done (some e))
-        | none => ({ s with link := .live, readConn := true, reconnectWait := 0 }, .done none)
+        | none => ({ s with link := .live, readConn := true, reconnectWait := 0, online := true }, .done none)
 
 /-- `connect` (client.go:888-955) with `dialAndConnect` and `handshake` inlined -/
 def S.connect (s : S) (fromPrologue : Bool) : S × ConnectResult :=
@@ -1075,21 +1076,21 @@ def S.finishClosers (s : S) : S :=
 /-- `Close` (client.go:388-423) once it holds connSem and found the write semaphore `link` -/
 def S.closeNow (s : S) : S :=
   let s := if s.link == .live then s.closeConn else s
-  let s := { s with link := .closed, connSemClosed := true }
+  let s := { s with link := .closed, connSemClosed := true, online := false }
   (s.failWaiters (mkErr ["closed"])).finishClosers
 
 /-- `Disconnect` (client.go:434-477) once it holds connSem and the write semaphore -/
 def S.disconnectNow (s : S) : S × Err :=
   match s.link with
   | .pending | .down =>
-    ((({ s with link := .closed, connSemClosed := true }).failWaiters (mkErr ["closed"])).finishClosers, mkErr ["down"])
+    ((({ s with link := .closed, connSemClosed := true, online := false }).failWaiters (mkErr ["closed"])).finishClosers, mkErr ["down"])
   | .closed => (s, mkErr ["closed"])
   | .live =>
     if s.gateAhead then (s, mkErr ["unsupported"]) else
     let (s, o) := s.connWrite (writeTo · packetDISCONNECT)
     let cerr := match s.conn with | some c => c.cerr | none => false
     let s := s.closeConn
-    let s := (({ s with link := .closed, connSemClosed := true }).failWaiters (mkErr ["closed"])).finishClosers
+    let s := (({ s with link := .closed, connSemClosed := true, online := false }).failWaiters (mkErr ["closed"])).finishClosers
     -- a failed write wins over a failed Close; either way the error is an ErrSubmit (F27)
     (s, if o == .ok then (if cerr then mkErr ["submit", "hard"] else errOk) else mkErr ["submit", woutTag o])
 
@@ -1194,7 +1195,7 @@ def S.initSession (s : S) (clientID : Bytes) (cfg : Cfg) : S × Option Err :=
 def S.adoptSession (s : S) (cfg : Cfg) : S × Except Err (List Warn) :=
   -- the process stops: its connection dies with it
   let s := { s with noClient := true, parked := false, waiters := [], lockq := [], early := [], held := none, txs := [], ping := none, conn := none,
-                    readConn := false, hadConn := false, link := .pending }
+                    readConn := false, hadConn := false, link := .pending, online := false }
   if cfg.valid.isSome then (s, .error (mkErr ["deny"])) else
   let outboundKeys := s.core.store.sortedKeys.filter fun k => !(k == Facts.clientIDKey)   -- every record but the identifier is loaded
   if s.fLoad && !outboundKeys.isEmpty then ({ s with fLoad := false }, .error (mkErr ["store"])) else
